@@ -63,52 +63,55 @@ Qed.
 
 Lemma h_fbtv_reply mtu vs s e t v : reply_for 6 (h_fbtv mtu vs 6 s e t v) = true.
 Proof.
-  unfold h_fbtv. destruct (fbtv_collect _ _ _ _ _ _); [apply reply_err|]. apply (reply_rsp 6).
+  unfold h_fbtv, exc_rsp. destruct (fbtv_collect _ _ _ _ _ _) as [[|x r]|];
+    [apply reply_err|apply (reply_rsp 6)|apply reply_err].
 Qed.
 
 Lemma h_rbt_reply mtu vs s e t : reply_for 8 (h_rbt mtu vs 8 s e t) = true.
 Proof.
-  unfold h_rbt. destruct ((s =? 0) || (e <? s)); [apply reply_err|].
-  destruct (rb_collect _ _ _ _ _) as [[|[x v0] r] [[h c]|]];
+  unfold h_rbt, exc_rsp. destruct ((s =? 0) || (e <? s)); [apply reply_err|].
+  destruct (rb_collect _ _ _ _ _) as [[[|[x v0] r] [[h c]|]]|];
     try apply reply_err; apply (reply_rsp 8).
 Qed.
 
 Lemma h_rbgt_reply mtu vs s e t : reply_for 16 (h_rbgt mtu vs 16 s e t) = true.
 Proof.
-  unfold h_rbgt. destruct (negb _); [apply reply_err|].
-  destruct (rb_collect _ _ _ _ _) as [[|[x v0] r] [[h c]|]];
+  unfold h_rbgt, exc_rsp. destruct (negb _); [apply reply_err|].
+  destruct (rb_collect _ _ _ _ _) as [[[|[x v0] r] [[h c]|]]|];
     try apply reply_err; apply (reply_rsp 16).
 Qed.
 
 Lemma h_read_reply mtu vs h : reply_for 10 (h_read mtu vs 10 h) = true.
 Proof.
-  unfold h_read. destruct (find_view h vs) as [x|]; [|apply reply_err].
-  destruct (v_read x); [apply reply_err|apply (reply_rsp 10)].
+  unfold h_read, exc_rsp. destruct (find_view h vs) as [x|]; [|apply reply_err].
+  destruct (v_read x); [apply reply_err|apply (reply_rsp 10)|apply reply_err].
 Qed.
 
 Lemma h_blob_reply mtu vs h off : reply_for 12 (h_blob mtu vs 12 h off) = true.
 Proof.
-  unfold h_blob. destruct (find_view h vs) as [x|]; [|apply reply_err].
-  destruct (v_read x); [apply reply_err|].
+  unfold h_blob, exc_rsp. destruct (find_view h vs) as [x|]; [|apply reply_err].
+  destruct (v_read x); [apply reply_err| |apply reply_err].
   destruct (len v <? off); [apply reply_err|].
   destruct (len v <=? mtu - 1); [apply reply_err|apply (reply_rsp 12)].
 Qed.
 
 Lemma h_rm_reply mtu vs hs : reply_for 14 (h_rm mtu vs 14 hs) = true.
 Proof.
-  unfold h_rm. destruct (rm_collect _ _ _ _) as [r|[h c]]; [apply (reply_rsp 14)|apply reply_err].
+  unfold h_rm, exc_rsp. destruct (rm_collect _ _ _ _) as [r|h c|];
+    [apply (reply_rsp 14)|apply reply_err|apply reply_err].
 Qed.
 
 Lemma h_rmv_reply mtu vs hs : reply_for 32 (h_rmv mtu vs 32 hs) = true.
 Proof.
-  unfold h_rmv. destruct (rmv_collect _ _ _) as [r|[h c]]; [apply (reply_rsp 32)|apply reply_err].
+  unfold h_rmv, exc_rsp. destruct (rmv_collect _ _ _) as [r|h c|];
+    [apply (reply_rsp 32)|apply reply_err|apply reply_err].
 Qed.
 
-Lemma h_write_reply b db h v : reply_for 18 (snd (h_write b db 18 h v)) = true.
+Lemma h_write_reply b db subs h v : reply_for 18 (snd (h_write b db subs 18 h v)) = true.
 Proof.
-  unfold h_write. destruct (find_attr h db) as [a|]; [|apply reply_err].
+  unfold h_write, exc_rsp. destruct (find_attr h db) as [a|]; [|apply reply_err].
   destruct (MAX_VALUE_SIZE <? len v); [apply reply_err|].
-  destruct (write_check b a); [apply reply_err|apply (reply_rsp 18)].
+  destruct (write_check b a); [apply reply_err|apply (reply_rsp 18)|apply reply_err].
 Qed.
 
 (* ------------------------------------------------------------------ parsing: which request a
@@ -271,14 +274,20 @@ Proof.
 Qed.
 
 Lemma fbtv_collect_len s e t v vs : forall space,
-  0 <= space -> len (flat_map fbtv_entry (fbtv_collect s e t v space vs)) <= space.
+  0 <= space ->
+  match fbtv_collect s e t v space vs with
+  | Some r => len (flat_map fbtv_entry r) <= space
+  | None => True
+  end.
 Proof.
   induction vs as [|x vs IH]; intros space Hs; cbn [fbtv_collect].
   - cbn. exact Hs.
-  - destruct (in_range s e x && uuid_eqb (v_type x) t && value_matches x v && (4 <=? space)) eqn:E.
+  - destruct (in_range s e x && uuid_eqb (v_type x) t && read_raises x); [exact I|].
+    destruct (in_range s e x && uuid_eqb (v_type x) t && value_matches x v && (4 <=? space)) eqn:E.
     + apply andb_true_iff in E. destruct E as [_ E]. apply Z.leb_le in E.
-      rewrite len_flat_map_cons. specialize (IH (space - 4) ltac:(lia)).
-      unfold fbtv_entry at 1. rewrite len_app, !len_le16. lia.
+      specialize (IH (space - 4) ltac:(lia)).
+      destruct (fbtv_collect s e t v (space - 4) vs) as [r|]; cbn [option_map]; [|exact I].
+      rewrite len_flat_map_cons. unfold fbtv_entry at 1. rewrite len_app, !len_le16. lia.
     + apply IH; exact Hs.
 Qed.
 
@@ -286,25 +295,30 @@ Lemma h_fbtv_len mtu vs op s e t v : 23 <= mtu -> len (h_fbtv mtu vs op s e t v)
 Proof.
   intros Hm. unfold h_fbtv.
   pose proof (fbtv_collect_len s e t v vs (mtu - 2) ltac:(lia)) as H.
-  destruct (fbtv_collect s e t v (mtu - 2) vs) as [|x r].
+  destruct (fbtv_collect s e t v (mtu - 2) vs) as [[|x r]|].
   - rewrite len_err_rsp; lia.
   - rewrite len_app. change (len [OP_FBTV_RSP]) with 1. lia.
+  - unfold exc_rsp. rewrite len_err_rsp; lia.
 Qed.
 
 Lemma rb_collect_len (f : view * bytes -> bytes) hdr cap :
   (forall p, len (f p) = hdr + len (snd p)) ->
   forall l space flen, 0 <= space ->
-  len (flat_map f (fst (rb_collect hdr cap space flen l))) <= space.
+  match rb_collect hdr cap space flen l with
+  | Some re => len (flat_map f (fst re)) <= space
+  | None => True
+  end.
 Proof.
   intros Hf. induction l as [|x l IH]; intros space flen Hs; cbn [rb_collect].
   - cbn. exact Hs.
   - destruct (space =? 0); [cbn; exact Hs|].
-    destruct (v_read x) as [c|v]; [cbn; exact Hs|].
+    destruct (v_read x) as [c|v|]; [cbn; exact Hs| |exact I].
     destruct (negb _); [cbn; exact Hs|].
     destruct (space <? hdr + len (take cap v)) eqn:E; [cbn; exact Hs|].
     apply Z.ltb_ge in E.
     specialize (IH (space - (hdr + len (take cap v))) (Some (len (take cap v))) ltac:(lia)).
-    destruct (rb_collect hdr cap (space - (hdr + len (take cap v))) (Some (len (take cap v))) l) as [r e0].
+    destruct (rb_collect hdr cap (space - (hdr + len (take cap v))) (Some (len (take cap v))) l) as [[r e0]|];
+      [|exact I].
     cbn [fst] in *. rewrite len_flat_map_cons, Hf. cbn [snd]. lia.
 Qed.
 
@@ -321,7 +335,7 @@ Proof.
   pose proof (rb_collect_len rbt_entry 2 (Z.min (mtu - 4) 253) rbt_entry_len
                 (filter (type_in_range t s e) vs) (mtu - 2) None ltac:(lia)) as H.
   destruct (rb_collect 2 (Z.min (mtu - 4) 253) (mtu - 2) None (filter (type_in_range t s e) vs))
-    as [[|[x v0] r] [[h c]|]]; cbn [fst] in H; try (rewrite len_err_rsp; lia).
+    as [[[|[x v0] r] [[h c]|]]|]; cbn [fst] in H; unfold exc_rsp; try (rewrite len_err_rsp; lia).
   - rewrite len_app. change (len [OP_RBT_RSP; _]) with 2. lia.
   - rewrite len_app. change (len [OP_RBT_RSP; _]) with 2. lia.
 Qed.
@@ -333,7 +347,7 @@ Proof.
   pose proof (rb_collect_len rbgt_entry 4 (Z.min (mtu - 6) 251) rbgt_entry_len
                 (filter (type_in_range t s e) vs) (mtu - 2) None ltac:(lia)) as H.
   destruct (rb_collect 4 (Z.min (mtu - 6) 251) (mtu - 2) None (filter (type_in_range t s e) vs))
-    as [[|[x v0] r] [[h c]|]]; cbn [fst] in H; try (rewrite len_err_rsp; lia).
+    as [[[|[x v0] r] [[h c]|]]|]; cbn [fst] in H; unfold exc_rsp; try (rewrite len_err_rsp; lia).
   - rewrite len_app. change (len [OP_RBGT_RSP; _]) with 2. lia.
   - rewrite len_app. change (len [OP_RBGT_RSP; _]) with 2. lia.
 Qed.
@@ -342,7 +356,7 @@ Lemma h_read_len mtu vs op h : 23 <= mtu -> len (h_read mtu vs op h) <= mtu.
 Proof.
   intros Hm. unfold h_read.
   destruct (find_view h vs) as [x|]; [|rewrite len_err_rsp; lia].
-  destruct (v_read x) as [c|v]; [rewrite len_err_rsp; lia|].
+  destruct (v_read x) as [c|v|]; [rewrite len_err_rsp; lia| |unfold exc_rsp; rewrite len_err_rsp; lia].
   rewrite len_app. change (len [OP_READ_RSP]) with 1.
   pose proof (len_nonneg v).
   pose proof (len_take_le (Z.min (mtu - 1) (len v)) v ltac:(lia)). lia.
@@ -352,7 +366,7 @@ Lemma h_blob_len mtu vs op h off : 23 <= mtu -> len (h_blob mtu vs op h off) <= 
 Proof.
   intros Hm. unfold h_blob.
   destruct (find_view h vs) as [x|]; [|rewrite len_err_rsp; lia].
-  destruct (v_read x) as [c|v]; [rewrite len_err_rsp; lia|].
+  destruct (v_read x) as [c|v|]; [rewrite len_err_rsp; lia| |unfold exc_rsp; rewrite len_err_rsp; lia].
   destruct (len v <? off) eqn:E; [rewrite len_err_rsp; lia|]. apply Z.ltb_ge in E.
   destruct (len v <=? mtu - 1); [rewrite len_err_rsp; lia|].
   rewrite len_app. change (len [OP_BLOB_RSP]) with 1.
@@ -360,16 +374,17 @@ Proof.
 Qed.
 
 Lemma rm_collect_len mtu vs hs : forall space, 0 <= space ->
-  match rm_collect mtu vs space hs with inl r => len (concat r) <= space | inr _ => True end.
+  match rm_collect mtu vs space hs with MOk r => len (concat r) <= space | _ => True end.
 Proof.
   induction hs as [|h hs IH]; intros space Hs; cbn [rm_collect].
   - cbn. exact Hs.
   - destruct (find_view h vs) as [x|]; [|exact I].
-    destruct (v_read x) as [c|v]; [exact I|].
+    destruct (v_read x) as [c|v|]; [exact I| |exact I].
     destruct (space <? len (take (Z.min (mtu - 1) 251) v)) eqn:E; [cbn; exact Hs|].
     apply Z.ltb_ge in E.
     specialize (IH (space - len (take (Z.min (mtu - 1) 251) v)) ltac:(lia)).
-    destruct (rm_collect mtu vs (space - len (take (Z.min (mtu - 1) 251) v)) hs) as [r|e0]; [|exact I].
+    destruct (rm_collect mtu vs (space - len (take (Z.min (mtu - 1) 251) v)) hs) as [r|h0 c0|];
+      [|exact I|exact I].
     cbn [concat]. rewrite len_app. lia.
 Qed.
 
@@ -377,7 +392,8 @@ Lemma h_rm_len mtu vs op hs : 23 <= mtu -> len (h_rm mtu vs op hs) <= mtu.
 Proof.
   intros Hm. unfold h_rm.
   pose proof (rm_collect_len mtu vs hs (mtu - 1) ltac:(lia)) as H.
-  destruct (rm_collect mtu vs (mtu - 1) hs) as [r|[h c]]; [|rewrite len_err_rsp; lia].
+  destruct (rm_collect mtu vs (mtu - 1) hs) as [r|h c|];
+    [|rewrite len_err_rsp; lia|unfold exc_rsp; rewrite len_err_rsp; lia].
   rewrite len_app. change (len [OP_RM_RSP]) with 1. lia.
 Qed.
 
@@ -385,20 +401,20 @@ Lemma rmv_entry_len p : len (rmv_entry p) = 2 + len (snd p).
 Proof. unfold rmv_entry. rewrite len_app, len_le16. reflexivity. Qed.
 
 Lemma rmv_collect_len vs hs : forall space, 2 <= space ->
-  match rmv_collect vs space hs with inl r => len (flat_map rmv_entry r) <= space | inr _ => True end.
+  match rmv_collect vs space hs with MOk r => len (flat_map rmv_entry r) <= space | _ => True end.
 Proof.
   induction hs as [|h hs IH]; intros space Hs; cbn [rmv_collect].
   - cbn. lia.
   - destruct (find_view h vs) as [x|]; [|exact I].
-    destruct (v_read x) as [c|v]; [exact I|].
+    destruct (v_read x) as [c|v|]; [exact I| |exact I].
     pose proof (len_take_le (Z.min (space - 2) 251) v ltac:(lia)) as Ht.
     pose proof (len_nonneg (take (Z.min (space - 2) 251) v)) as Hn.
     destruct (space - (2 + len (take (Z.min (space - 2) 251) v)) <? 2) eqn:E.
     + rewrite len_flat_map_cons, rmv_entry_len. cbn [snd flat_map]. rewrite len_nil. lia.
     + apply Z.ltb_ge in E.
       specialize (IH (space - (2 + len (take (Z.min (space - 2) 251) v))) E).
-      destruct (rmv_collect vs (space - (2 + len (take (Z.min (space - 2) 251) v))) hs) as [r|e0];
-        [|exact I].
+      destruct (rmv_collect vs (space - (2 + len (take (Z.min (space - 2) 251) v))) hs) as [r|h0 c0|];
+        [|exact I|exact I].
       rewrite len_flat_map_cons, rmv_entry_len. cbn [snd]. lia.
 Qed.
 
@@ -406,16 +422,18 @@ Lemma h_rmv_len mtu vs op hs : 23 <= mtu -> len (h_rmv mtu vs op hs) <= mtu.
 Proof.
   intros Hm. unfold h_rmv.
   pose proof (rmv_collect_len vs hs (mtu - 1) ltac:(lia)) as H.
-  destruct (rmv_collect vs (mtu - 1) hs) as [r|[h c]]; [|rewrite len_err_rsp; lia].
+  destruct (rmv_collect vs (mtu - 1) hs) as [r|h c|];
+    [|rewrite len_err_rsp; lia|unfold exc_rsp; rewrite len_err_rsp; lia].
   rewrite len_app. change (len [OP_RMV_RSP]) with 1. lia.
 Qed.
 
-Lemma h_write_len b db op h v mtu : 23 <= mtu -> len (snd (h_write b db op h v)) <= mtu.
+Lemma h_write_len b db subs op h v mtu : 23 <= mtu -> len (snd (h_write b db subs op h v)) <= mtu.
 Proof.
-  intros Hm. unfold h_write.
+  intros Hm. unfold h_write, exc_rsp.
   destruct (find_attr h db) as [a|]; [|cbn [snd]; rewrite len_err_rsp; lia].
   destruct (MAX_VALUE_SIZE <? len v); [cbn [snd]; rewrite len_err_rsp; lia|].
-  destruct (write_check b a); cbn [snd]; [rewrite len_err_rsp; lia|]. cbn. lia.
+  destruct (write_check b a); cbn [snd]; [rewrite len_err_rsp; lia| |rewrite len_err_rsp; lia].
+  cbn. lia.
 Qed.
 
 (* ------------------------------------------------------------------ C10: exactly one reply, of the
@@ -456,9 +474,9 @@ Proof.
     eexists _, _; split; [reflexivity|split; [apply h_rbgt_reply|apply h_rbgt_len]].
   - destruct (parse_pdu 18 ps) as [|r] eqn:E; [one_reply_bad|].
     apply parse_18 in E. destruct E as (h & v & ->). cbn [assoc m_handlers Z.eqb Pos.eqb handle].
-    pose proof (h_write_reply (s_b st) (s_db st) h v) as Hr.
-    pose proof (h_write_len (s_b st) (s_db st) 18 h v (mtu_of st)) as Hl.
-    destruct (h_write (s_b st) (s_db st) 18 h v) as [db p]. cbn [snd] in Hr, Hl.
+    pose proof (h_write_reply (s_b st) (s_db st) (s_subs st) h v) as Hr.
+    pose proof (h_write_len (s_b st) (s_db st) (s_subs st) 18 h v (mtu_of st)) as Hl.
+    destruct (h_write (s_b st) (s_db st) (s_subs st) 18 h v) as [db p]. cbn [snd] in Hr, Hl.
     eexists _, _; split; [reflexivity|split; [exact Hr|exact Hl]].
   - (* 22: Prepare Write, no handler *)
     destruct (parse_pdu 22 ps) as [|r] eqn:E; [one_reply_bad|].
@@ -502,8 +520,8 @@ Proof.
   - inversion H; subst. apply all_le_one. apply h_rm_len; exact Hm.
   - inversion H; subst. apply all_le_one. apply h_rbgt_len; exact Hm.
   - inversion H; subst. apply all_le_one. apply h_rmv_len; exact Hm.
-  - pose proof (h_write_len (s_b st) (s_db st) op h v (mtu_of st) Hm) as Hl.
-    destruct (h_write (s_b st) (s_db st) op h v) as [db p]. inversion H; subst.
+  - pose proof (h_write_len (s_b st) (s_db st) (s_subs st) op h v (mtu_of st) Hm) as Hl.
+    destruct (h_write (s_b st) (s_db st) (s_subs st) op h v) as [db p]. inversion H; subst.
     apply all_le_one. exact Hl.
   - inversion H; subst. constructor.
   - inversion H as [H1]. unfold h_confirm in H1. destruct (s_pending st).
@@ -533,7 +551,7 @@ Lemma handle_cases st op r st' out :
   (exists m, r = RMtu m /\ (st', out) = h_mtu st m) \/
   (r = RConfirm /\ (st', out) = h_confirm st) \/
   (mtu_of st' = mtu_of st /\ s_max_mtu st' = s_max_mtu st /\ s_waiting st' = s_waiting st /\
-   s_pending st' = s_pending st /\ s_subs st' = s_subs st /\ s_b st' = s_b st /\
+   s_pending st' = s_pending st /\ s_b st' = s_b st /\
    (out = [] \/ exists p, out = [p] /\ is_indication p = false)).
 Proof.
   unfold handle. intros H. destruct r; try discriminate.
@@ -541,27 +559,28 @@ Proof.
   - right; right. inversion H; subst. repeat split. right. eexists; split; [reflexivity|].
     unfold h_find_info. destruct (_ || _); [reflexivity|]. destruct (fi_collect _ _ _ _); reflexivity.
   - right; right. inversion H; subst. repeat split. right. eexists; split; [reflexivity|].
-    unfold h_fbtv. destruct (fbtv_collect _ _ _ _ _ _); reflexivity.
+    unfold h_fbtv. destruct (fbtv_collect _ _ _ _ _ _) as [[|x r]|]; reflexivity.
   - right; right. inversion H; subst. repeat split. right. eexists; split; [reflexivity|].
     unfold h_rbt. destruct (_ || _); [reflexivity|].
-    destruct (rb_collect _ _ _ _ _) as [[|[x v0] r] [[h c]|]]; reflexivity.
+    destruct (rb_collect _ _ _ _ _) as [[[|[x v0] r] [[h c]|]]|]; reflexivity.
   - right; right. inversion H; subst. repeat split. right. eexists; split; [reflexivity|].
     unfold h_read. destruct (find_view _ _) as [x|]; [|reflexivity]. destruct (v_read x); reflexivity.
   - right; right. inversion H; subst. repeat split. right. eexists; split; [reflexivity|].
-    unfold h_blob. destruct (find_view _ _) as [x|]; [|reflexivity]. destruct (v_read x); [reflexivity|].
+    unfold h_blob. destruct (find_view _ _) as [x|]; [|reflexivity].
+    destruct (v_read x); [reflexivity| |reflexivity].
     destruct (_ <? _); [reflexivity|]. destruct (_ <=? _); reflexivity.
   - right; right. inversion H; subst. repeat split. right. eexists; split; [reflexivity|].
-    unfold h_rm. destruct (rm_collect _ _ _ _) as [r|[h c]]; reflexivity.
+    unfold h_rm. destruct (rm_collect _ _ _ _) as [r|h c|]; reflexivity.
   - right; right. inversion H; subst. repeat split. right. eexists; split; [reflexivity|].
     unfold h_rbgt. destruct (negb _); [reflexivity|].
-    destruct (rb_collect _ _ _ _ _) as [[|[x v0] r] [[h c]|]]; reflexivity.
+    destruct (rb_collect _ _ _ _ _) as [[[|[x v0] r] [[h c]|]]|]; reflexivity.
   - right; right. inversion H; subst. repeat split. right. eexists; split; [reflexivity|].
-    unfold h_rmv. destruct (rmv_collect _ _ _) as [r|[h c]]; reflexivity.
+    unfold h_rmv. destruct (rmv_collect _ _ _) as [r|h c|]; reflexivity.
   - right; right.
-    assert (Hi : is_indication (snd (h_write (s_b st) (s_db st) op h v)) = false).
+    assert (Hi : is_indication (snd (h_write (s_b st) (s_db st) (s_subs st) op h v)) = false).
     { unfold h_write. destruct (find_attr _ _) as [a|]; [|reflexivity].
       destruct (_ <? _); [reflexivity|]. destruct (write_check _ a); reflexivity. }
-    destruct (h_write (s_b st) (s_db st) op h v) as [db p]. inversion H; subst.
+    destruct (h_write (s_b st) (s_db st) (s_subs st) op h v) as [ds p]. inversion H; subst.
     repeat split. right. eexists; split; [reflexivity|exact Hi].
   - right; right. inversion H; subst. repeat split. left. reflexivity.
   - right; left. split; [reflexivity|]. inversion H. reflexivity.
@@ -585,13 +604,13 @@ Lemma rx_cases st opc ps st' out :
   (exists m, (st', out) = h_mtu st m) \/
   (opc = 30 /\ (st', out) = h_confirm st) \/
   (mtu_of st' = mtu_of st /\ s_max_mtu st' = s_max_mtu st /\ s_waiting st' = s_waiting st /\
-   s_pending st' = s_pending st /\ s_subs st' = s_subs st /\ s_b st' = s_b st /\
+   s_pending st' = s_pending st /\ s_b st' = s_b st /\
    (out = [] \/ exists p, out = [p] /\ is_indication p = false)).
 Proof.
   intros H. unfold rx in H.
   assert (Hsame : forall l, Some (st, l) = Some (st', out) -> l = [] \/ (exists p, l = [p] /\ is_indication p = false) ->
           mtu_of st' = mtu_of st /\ s_max_mtu st' = s_max_mtu st /\ s_waiting st' = s_waiting st /\
-          s_pending st' = s_pending st /\ s_subs st' = s_subs st /\ s_b st' = s_b st /\
+          s_pending st' = s_pending st /\ s_b st' = s_b st /\
           (out = [] \/ exists p, out = [p] /\ is_indication p = false)).
   { intros l Hl Hk. inversion Hl; subst. repeat split. exact Hk. }
   destruct (parse_pdu opc ps) as [|r] eqn:E.
@@ -698,7 +717,7 @@ Lemma step_inv st o st' out :
   inv st' /\ all_le (mtu_of st) out.
 Proof.
   intros Hi Hs Hk. pose proof Hi as (Hm & Hx & Hw).
-  destruct o as [opc ps| |h v f|h v f|h v]; cbn [step] in Hs.
+  destruct o as [opc ps| |h v f|h v f]; cbn [step] in Hs.
   - (* Rx *)
     pose proof (rx_len st opc ps st' out Hm Hw Hs) as Hl. split; [|exact Hl].
     apply rx_cases in Hs. destruct Hs as [(m & Hs)|[(_ & Hs)|Hs]].
@@ -724,9 +743,6 @@ Proof.
     + split; [|constructor]. apply inv_intro; rewrite ?E1, ?E2, ?Ew; try assumption.
       apply all_le_app; [assumption|apply all_le_one; exact Hl].
     + split; [|apply all_le_one; exact Hl]. apply inv_intro; rewrite ?E1, ?E2, ?Ew; assumption.
-  - (* CCCD write *)
-    inversion Hs; subst. split; [|constructor].
-    destruct (len v =? 2); [apply inv_intro; cbn; assumption|exact Hi].
 Qed.
 
 Lemma run_le_mtu ops : forall st st' outs,
@@ -756,8 +772,8 @@ Lemma lowered_mtu_refuted :
   exists db b ops st' outs,
     23 <= b_mtu b /\ run (init db b 517) ops = Some (st', outs) /\ outs_le_mtu outs = false.
 Proof.
-  exists [mkAttr 1 [0; 40] 1 [15; 24] 3 0 0; mkAttr 2 [3; 40] 1 [32; 3; 0; 25; 42] 3 0 0;
-          mkAttr 3 [25; 42] 1 (mkb 200 0 1) 3 0 0].
+  exists [mkAttr 1 [0; 40] 1 [15; 24] 3 0 0 0; mkAttr 2 [3; 40] 1 [32; 3; 0; 25; 42] 3 0 0 0;
+          mkAttr 3 [25; 42] 1 (mkb 200 0 1) 3 0 0 0].
   exists (mkBearer 100 false false false).
   exists [Indicate 3 None true; Indicate 3 None true; Rx 2 [23; 0]; Rx 30 []].
   eexists _, _. split; [cbn; lia|]. split; [vm_compute; reflexivity|vm_compute; reflexivity].
@@ -793,7 +809,7 @@ Lemma step_ind st o st' out :
   ind_inv st' /\
   sent_ok (if is_confirm o then false else s_pending st) out = Some (s_pending st').
 Proof.
-  intros Hi Hm Hs. destruct o as [opc ps| |h v f|h v f|h v]; cbn [step is_confirm] in *.
+  intros Hi Hm Hs. destruct o as [opc ps| |h v f|h v f]; cbn [step is_confirm] in *.
   - destruct (Z.eq_dec opc 30) as [->|Hn].
     + destruct (rx_confirmation st ps) as (Hc & _). rewrite Hc in Hs. inversion Hs as [H1].
       cbn. apply (confirm_ind st st' out Hi H1).
@@ -802,7 +818,7 @@ Proof.
       apply rx_cases in Hs. destruct Hs as [(m & Hs)|[(He & _)|Hs]]; [|contradiction|].
       * unfold h_mtu in Hs. inversion Hs; subst. clear Hs. cbn.
         destruct (DEFAULT_MTU <=? m); cbn; (split; [exact Hi|reflexivity]).
-      * destruct Hs as (_ & _ & Hw & Hp & _ & _ & Ho). destruct Hi as (H1 & H2).
+      * destruct Hs as (_ & _ & Hw & Hp & _ & Ho). destruct Hi as (H1 & H2).
         split; [split; [rewrite Hp, Hw; exact H1|rewrite Hw; exact H2]|].
         rewrite Hp. destruct Ho as [->|(p & -> & Hni)]; cbn; [reflexivity|].
         rewrite Hni. reflexivity.
@@ -819,14 +835,13 @@ Proof.
       rewrite Ew. apply Forall_app. split; [assumption|]. constructor; [reflexivity|constructor].
     + split; [split; [rewrite Ep'; discriminate|rewrite Ew; assumption]|].
       rewrite Ep, Ep'. reflexivity.
-  - inversion Hs; subst. destruct (len v =? 2); (split; [exact Hi|reflexivity]).
 Qed.
 
 Lemma step_mtu_ge st o st' out :
   23 <= mtu_of st -> 23 <= s_max_mtu st -> step st o = Some (st', out) ->
   23 <= mtu_of st' /\ s_max_mtu st' = s_max_mtu st.
 Proof.
-  intros Hm Hx Hs. destruct o as [opc ps| |h v f|h v f|h v]; cbn [step] in Hs.
+  intros Hm Hx Hs. destruct o as [opc ps| |h v f|h v f]; cbn [step] in Hs.
   - apply rx_cases in Hs. destruct Hs as [(m & Hs)|[(_ & Hs)|Hs]].
     + unfold h_mtu in Hs. inversion Hs; subst. destruct (DEFAULT_MTU <=? m) eqn:E; [|auto].
       apply Z.leb_le in E. unfold DEFAULT_MTU in E. cbn. split; [lia|reflexivity].
@@ -839,7 +854,6 @@ Proof.
     rewrite H1 in Hf. cbn in Hf. subst. auto.
   - inversion Hs as [H1]. pose proof (indicate_spec st h v f Hm) as Hin. rewrite H1 in Hin.
     cbn [fst snd] in Hin. cbn zeta in Hin. destruct Hin as (E1 & E2 & _). rewrite E1, E2. auto.
-  - inversion Hs; subst. destruct (len v =? 2); cbn; auto.
 Qed.
 
 (* Over every history: an indication is transmitted only when none awaits its confirmation. *)
@@ -862,44 +876,37 @@ Proof. split; [reflexivity|constructor]. Qed.
 
 (* ================================================================== C11 *)
 (* ------------------------------------------------------------------ reads: non-interference *)
-Lemma read_value_sim b a1 a2 :
-  attr_sim b a1 a2 -> d11a_read_witness b a1 = false -> read_value b a1 = read_value b a2.
+Lemma read_value_sim b subs a1 a2 :
+  attr_sim b a1 a2 -> d11a_read_witness b a1 = false ->
+  read_value b subs a1 = read_value b subs a2.
 Proof.
-  intros (Hh & Ht & Hp & He & Hr & Hw & Hv) Hd. unfold read_value. rewrite <- Hp, <- Hr.
+  intros (Hh & Ht & Hp & He & Hr & Hw & Hc & Hv) Hd. unfold read_value. rewrite <- Hp, <- Hr, <- Hc.
   destruct (Z.testbit (a_perm a1) PB_READ_ENC && negb (b_enc b)) eqn:E1; [reflexivity|].
   destruct (Z.testbit (a_perm a1) PB_READ_AUTHN && negb (b_auth b)) eqn:E2; [reflexivity|].
   destruct (Z.testbit (a_perm a1) PB_READ_AUTHZ) eqn:E3; [reflexivity|].
+  destruct (negb (a_cccd a1 =? 0)) eqn:E5; [reflexivity|].
   destruct (a_rerr a1 =? 0) eqn:E4; [|reflexivity].
-  f_equal. apply Hv. unfold may_read, link_ok_read. rewrite E1, E2, E3, E4.
-  unfold d11a_read_witness, link_ok_read in Hd. rewrite E1, E2, E3, E4 in Hd.
+  f_equal. apply Hv. unfold may_read, link_ok_read, rd_ok. rewrite E1, E2, E3, E4, E5.
+  unfold d11a_read_witness, link_ok_read, rd_ok in Hd. rewrite E1, E2, E3, E4, E5 in Hd.
   destruct (Z.testbit (a_perm a1) PB_READABLE); [reflexivity|cbn in Hd; discriminate Hd].
 Qed.
 
-Lemma view_of_sim b a1 a2 :
-  attr_sim b a1 a2 -> d11a_read_witness b a1 = false -> view_of b a1 = view_of b a2.
+Lemma view_of_sim b subs a1 a2 :
+  attr_sim b a1 a2 -> d11a_read_witness b a1 = false -> view_of b subs a1 = view_of b subs a2.
 Proof.
-  intros Hs Hd. unfold view_of. rewrite (read_value_sim b a1 a2 Hs Hd).
+  intros Hs Hd. unfold view_of. rewrite (read_value_sim b subs a1 a2 Hs Hd).
   destruct Hs as (Hh & Ht & _ & He & _). rewrite Hh, Ht, He. reflexivity.
 Qed.
 
-Lemma views_sim b db1 db2 :
+Lemma views_sim b subs db1 db2 :
   Forall2 (attr_sim b) db1 db2 -> d11a_free_read b db1 = true ->
-  map (view_of b) db1 = map (view_of b) db2.
+  map (view_of b subs) db1 = map (view_of b subs) db2.
 Proof.
   induction 1 as [|a1 a2 l1 l2 Ha Hl IH]; intros Hd; [reflexivity|].
   cbn [d11a_free_read forallb] in Hd. apply andb_true_iff in Hd. destruct Hd as [Hd1 Hd2].
   cbn [map]. f_equal; [|apply IH; exact Hd2].
   apply view_of_sim; [exact Ha|]. destruct (d11a_read_witness b a1); [discriminate|reflexivity].
 Qed.
-
-(* the security attributes of a bearer; the ATT_MTU does not matter to [attr_sim] *)
-Lemma attr_sim_mtu b m a1 a2 :
-  attr_sim b a1 a2 -> attr_sim (mkBearer m (b_enc b) (b_auth b) (b_enh b)) a1 a2.
-Proof. unfold attr_sim, may_read, link_ok_read. cbn. tauto. Qed.
-
-Lemma d11a_free_read_mtu b m db :
-  d11a_free_read (mkBearer m (b_enc b) (b_auth b) (b_enh b)) db = d11a_free_read b db.
-Proof. reflexivity. Qed.
 
 Definition st_sim (st1 st2 : srv) : Prop :=
   Forall2 (attr_sim (s_b st1)) (s_db st1) (s_db st2) /\ s_b st1 = s_b st2 /\
@@ -920,10 +927,12 @@ Proof.
 Qed.
 
 Lemma write_check_sim b a1 a2 : attr_sim b a1 a2 -> write_check b a1 = write_check b a2.
-Proof. intros (_ & _ & Hp & _ & _ & Hw & _). unfold write_check. rewrite Hp, Hw. reflexivity. Qed.
+Proof.
+  intros (_ & _ & Hp & _ & _ & Hw & Hc & _). unfold write_check. rewrite Hp, Hw, Hc. reflexivity.
+Qed.
 
 Lemma set_value_sim b a1 a2 v : attr_sim b a1 a2 -> attr_sim b (set_value a1 v) (set_value a2 v).
-Proof. unfold attr_sim, set_value, may_read, link_ok_read. cbn. tauto. Qed.
+Proof. unfold attr_sim, set_value, may_read, link_ok_read, rd_ok. cbn. tauto. Qed.
 
 Lemma db_set_sim b h v db1 db2 :
   Forall2 (attr_sim b) db1 db2 -> Forall2 (attr_sim b) (db_set h v db1) (db_set h v db2).
@@ -940,32 +949,47 @@ Proof.
   unfold d11a_free_read in IH. rewrite IH. reflexivity.
 Qed.
 
-Lemma h_write_sim b op h v db1 db2 :
-  Forall2 (attr_sim b) db1 db2 ->
-  snd (h_write b db1 op h v) = snd (h_write b db2 op h v) /\
-  Forall2 (attr_sim b) (fst (h_write b db1 op h v)) (fst (h_write b db2 op h v)) /\
-  d11a_free_read b (fst (h_write b db1 op h v)) = d11a_free_read b db1.
+Lemma store_sim b subs a1 a2 h v db1 db2 :
+  Forall2 (attr_sim b) db1 db2 -> attr_sim b a1 a2 ->
+  snd (store db1 subs a1 h v) = snd (store db2 subs a2 h v) /\
+  Forall2 (attr_sim b) (fst (store db1 subs a1 h v)) (fst (store db2 subs a2 h v)) /\
+  d11a_free_read b (fst (store db1 subs a1 h v)) = d11a_free_read b db1.
 Proof.
-  intros Hs. unfold h_write. pose proof (find_attr_sim b h db1 db2 Hs) as Hf.
+  intros Hs Ha. unfold store. destruct Ha as (_ & _ & _ & _ & _ & _ & Hc & _). rewrite <- Hc.
+  destruct (negb (a_cccd a1 =? 0)); cbn [fst snd]; [auto|].
+  split; [reflexivity|]. split; [apply db_set_sim; exact Hs|apply d11a_free_read_set].
+Qed.
+
+Lemma h_write_sim b subs op h v db1 db2 :
+  Forall2 (attr_sim b) db1 db2 ->
+  let r1 := h_write b db1 subs op h v in
+  let r2 := h_write b db2 subs op h v in
+  snd r1 = snd r2 /\ snd (fst r1) = snd (fst r2) /\
+  Forall2 (attr_sim b) (fst (fst r1)) (fst (fst r2)) /\
+  d11a_free_read b (fst (fst r1)) = d11a_free_read b db1.
+Proof.
+  intros Hs. cbn zeta. unfold h_write. pose proof (find_attr_sim b h db1 db2 Hs) as Hf.
   destruct (find_attr h db1) as [a1|], (find_attr h db2) as [a2|]; try contradiction;
     [|cbn; auto].
   destruct (MAX_VALUE_SIZE <? len v); [cbn; auto|].
   rewrite <- (write_check_sim b a1 a2 Hf).
-  destruct (write_check b a1); cbn [fst snd]; [auto|].
-  split; [reflexivity|]. split; [apply db_set_sim; exact Hs|apply d11a_free_read_set].
+  destruct (write_check b a1); cbn [fst snd]; [auto| |auto].
+  destruct (store_sim b subs a1 a2 h v db1 db2 Hs Hf) as (H1 & H2 & H3). auto.
 Qed.
 
-Lemma h_write_cmd_sim b h v db1 db2 :
+Lemma h_write_cmd_sim b subs h v db1 db2 :
   Forall2 (attr_sim b) db1 db2 ->
-  Forall2 (attr_sim b) (h_write_cmd b db1 h v) (h_write_cmd b db2 h v) /\
-  d11a_free_read b (h_write_cmd b db1 h v) = d11a_free_read b db1.
+  let r1 := h_write_cmd b db1 subs h v in
+  let r2 := h_write_cmd b db2 subs h v in
+  snd r1 = snd r2 /\ Forall2 (attr_sim b) (fst r1) (fst r2) /\
+  d11a_free_read b (fst r1) = d11a_free_read b db1.
 Proof.
-  intros Hs. unfold h_write_cmd. pose proof (find_attr_sim b h db1 db2 Hs) as Hf.
-  destruct (find_attr h db1) as [a1|], (find_attr h db2) as [a2|]; try contradiction; [|auto].
-  destruct (MAX_VALUE_SIZE <? len v); [auto|].
+  intros Hs. cbn zeta. unfold h_write_cmd. pose proof (find_attr_sim b h db1 db2 Hs) as Hf.
+  destruct (find_attr h db1) as [a1|], (find_attr h db2) as [a2|]; try contradiction; [|cbn; auto].
+  destruct (MAX_VALUE_SIZE <? len v); [cbn; auto|].
   rewrite <- (write_check_sim b a1 a2 Hf).
-  destruct (write_check b a1); [auto|].
-  split; [apply db_set_sim; exact Hs|apply d11a_free_read_set].
+  destruct (write_check b a1); cbn [fst snd]; [auto| |auto].
+  apply store_sim; assumption.
 Qed.
 
 Definition step_rel (r1 r2 : option (srv * list bytes)) : Prop :=
@@ -979,7 +1003,7 @@ Definition step_rel (r1 r2 : option (srv * list bytes)) : Prop :=
 Lemma st_sim_views st1 st2 :
   st_sim st1 st2 -> d11a_free_read (s_b st1) (s_db st1) = true -> views st1 = views st2.
 Proof.
-  intros (Hdb & Hb & _) Hd. unfold views. rewrite <- Hb. apply views_sim; assumption.
+  intros (Hdb & Hb & _ & Hsub & _) Hd. unfold views. rewrite <- Hb, <- Hsub. apply views_sim; assumption.
 Qed.
 
 Lemma handle_sim st1 st2 op r :
@@ -999,17 +1023,27 @@ Proof.
       repeat split; assumption.
     + cbn [s_b s_db]. exact Hd.
   - (* write request *)
-    rewrite <- Hb. destruct (h_write_sim (s_b st1) op h v (s_db st1) (s_db st2) Hdb) as (Ho & Hf & Hk).
-    destruct (h_write (s_b st1) (s_db st1) op h v) as [db1 p1].
-    destruct (h_write (s_b st1) (s_db st2) op h v) as [db2 p2]. cbn [fst snd] in *. subst p2.
+    rewrite <- Hb, <- Hsub.
+    pose proof (h_write_sim (s_b st1) (s_subs st1) op h v (s_db st1) (s_db st2) Hdb) as Hws.
+    cbn zeta in Hws. destruct Hws as (Ho & Hsb & Hf & Hk).
+    destruct (h_write (s_b st1) (s_db st1) (s_subs st1) op h v) as [[db1 sb1] p1].
+    destruct (h_write (s_b st1) (s_db st2) (s_subs st1) op h v) as [[db2 sb2] p2].
+    cbn [fst snd] in *. subst p2 sb2.
     split; [reflexivity|]. split.
-    + unfold st_sim, set_db. cbn [s_db s_b s_max_mtu s_subs s_pending s_waiting]. repeat split; assumption.
-    + unfold set_db. cbn [s_db s_b]. rewrite Hk. exact Hd.
+    + unfold st_sim, set_dbs. cbn [s_db s_b s_max_mtu s_subs s_pending s_waiting fst snd].
+      repeat split; assumption.
+    + unfold set_dbs. cbn [s_db s_b fst]. rewrite Hk. exact Hd.
   - (* write command *)
-    rewrite <- Hb. destruct (h_write_cmd_sim (s_b st1) h v (s_db st1) (s_db st2) Hdb) as (Hf & Hk).
+    rewrite <- Hb, <- Hsub.
+    pose proof (h_write_cmd_sim (s_b st1) (s_subs st1) h v (s_db st1) (s_db st2) Hdb) as Hws.
+    cbn zeta in Hws. destruct Hws as (Hsb & Hf & Hk).
+    destruct (h_write_cmd (s_b st1) (s_db st1) (s_subs st1) h v) as [db1 sb1].
+    destruct (h_write_cmd (s_b st1) (s_db st2) (s_subs st1) h v) as [db2 sb2].
+    cbn [fst snd] in *. subst sb2.
     split; [reflexivity|]. split.
-    + unfold st_sim, set_db. cbn [s_db s_b s_max_mtu s_subs s_pending s_waiting]. repeat split; assumption.
-    + unfold set_db. cbn [s_db s_b]. rewrite Hk. exact Hd.
+    + unfold st_sim, set_dbs. cbn [s_db s_b s_max_mtu s_subs s_pending s_waiting fst snd].
+      repeat split; assumption.
+    + unfold set_dbs. cbn [s_db s_b fst]. rewrite Hk. exact Hd.
   - (* confirmation *)
     unfold h_confirm. rewrite <- Hp, <- Hw.
     destruct (s_pending st1); [destruct (s_waiting st1)|]; (split; [reflexivity|split; [|assumption]]);
@@ -1034,11 +1068,11 @@ Lemma server_value_sim st1 st2 h v :
   | _, _ => False
   end.
 Proof.
-  intros (Hdb & Hb & _) Hd. pose proof (find_attr_sim (s_b st1) h _ _ Hdb) as Hf.
+  intros (Hdb & Hb & _ & Hsub & _) Hd. pose proof (find_attr_sim (s_b st1) h _ _ Hdb) as Hf.
   destruct (find_attr h (s_db st1)) as [a1|] eqn:E1, (find_attr h (s_db st2)) as [a2|];
     try contradiction; [|exact I].
-  unfold server_value. destruct v; [reflexivity|]. rewrite <- Hb.
-  rewrite (read_value_sim (s_b st1) a1 a2 Hf); [reflexivity|].
+  unfold server_value. destruct v; [reflexivity|]. rewrite <- Hb, <- Hsub.
+  rewrite (read_value_sim (s_b st1) (s_subs st1) a1 a2 Hf); [reflexivity|].
   (* a1 is in the database, which is free of D11a witnesses *)
   clear -E1 Hd. revert E1. induction (s_db st1) as [|a db IH]; cbn [find_attr]; [discriminate|].
   cbn [d11a_free_read forallb] in Hd. apply andb_true_iff in Hd. destruct Hd as [Hd1 Hd2].
@@ -1051,7 +1085,7 @@ Lemma step_sim st1 st2 o :
   st_sim st1 st2 -> d11a_free_read (s_b st1) (s_db st1) = true ->
   step_rel (step st1 o) (step st2 o).
 Proof.
-  intros Hs Hd. destruct o as [opc ps| |h v f|h v f|h v]; cbn [step].
+  intros Hs Hd. destruct o as [opc ps| |h v f|h v f]; cbn [step].
   - apply rx_sim; assumption.
   - apply (handle_sim st1 st2 30 RConfirm Hs Hd).
   - pose proof (server_value_sim st1 st2 h v Hs Hd) as Hv.
@@ -1070,9 +1104,6 @@ Proof.
     rewrite <- Hv. destruct (server_value st1 a1 v); [|cbn; auto].
     destruct (s_pending st1); cbn; (split; [reflexivity|split; [|exact Hd]]);
       unfold st_sim, set_ind; cbn; repeat split; assumption.
-  - pose proof Hs as (Hdb & Hb & Hx & Hsub & Hp & Hw). rewrite <- Hsub.
-    destruct (len v =? 2); cbn; (split; [reflexivity|split; [|exact Hd]]); [|exact Hs].
-    unfold st_sim, set_subs; cbn; repeat split; assumption.
 Qed.
 
 (* whole histories: the peer observes the same PDUs *)
@@ -1099,7 +1130,7 @@ Lemma read_gated_refuted :
     option_map snd (rx (init db1 b 517) opc ps) <> option_map snd (rx (init db2 b 517) opc ps).
 Proof.
   exists (mkBearer 23 false false false).
-  exists [mkAttr 1 [17; 17] 2 [1] 1 0 0], [mkAttr 1 [17; 17] 2 [2] 1 0 0], 10, [1; 0].
+  exists [mkAttr 1 [17; 17] 2 [1] 1 0 0 0], [mkAttr 1 [17; 17] 2 [2] 1 0 0 0], 10, [1; 0].
   split.
   - constructor; [|constructor]. unfold attr_sim, may_read. cbn. repeat split. discriminate.
   - vm_compute. discriminate.
@@ -1107,40 +1138,46 @@ Qed.
 
 (* ------------------------------------------------------------------ writes *)
 Lemma write_refused b a :
-  may_write b a = false -> d11a_write_witness b a = false -> exists c, write_check b a = WErr c.
+  may_write b a = false -> d11a_write_witness b a = false -> write_check b a <> WOk.
 Proof.
-  unfold may_write, d11a_write_witness, link_ok_write, write_check. intros Hm Hd.
-  destruct (Z.testbit (a_perm a) PB_WRITE_ENC && negb (b_enc b)); [eauto|].
-  destruct (Z.testbit (a_perm a) PB_WRITE_AUTHN && negb (b_auth b)); [eauto|].
-  destruct (Z.testbit (a_perm a) PB_WRITE_AUTHZ); [eauto|].
-  destruct (a_werr a =? 0); [|eauto]. exfalso.
-  destruct (Z.testbit (a_perm a) PB_WRITEABLE); cbn in Hm, Hd; discriminate.
+  unfold may_write, d11a_write_witness, link_ok_write, write_check, wr_ok. intros Hm Hd.
+  destruct (Z.testbit (a_perm a) PB_WRITE_ENC && negb (b_enc b)); [discriminate|].
+  destruct (Z.testbit (a_perm a) PB_WRITE_AUTHN && negb (b_auth b)); [discriminate|].
+  destruct (Z.testbit (a_perm a) PB_WRITE_AUTHZ); [discriminate|].
+  destruct (negb (a_cccd a =? 0)).
+  - exfalso. destruct (Z.testbit (a_perm a) PB_WRITEABLE); cbn in Hm, Hd; discriminate.
+  - destruct (a_werr a =? 0).
+    + exfalso. destruct (Z.testbit (a_perm a) PB_WRITEABLE); cbn in Hm, Hd; discriminate.
+    + destruct (0 <? a_werr a); discriminate.
 Qed.
 
-(* a write the bearer is not entitled to changes nothing, by request or by command *)
-Lemma write_gated_db b db op h v a :
+(* a write the bearer is not entitled to changes nothing (neither the database nor the
+   subscription state), by request or by command; the request is answered by an Error Response *)
+Lemma write_gated_db b db subs op h v a :
   find_attr h db = Some a -> may_write b a = false -> d11a_write_witness b a = false ->
-  (exists c, h_write b db op h v = (db, err_rsp op h c)) /\ h_write_cmd b db h v = db.
+  (exists hh c, h_write b db subs op h v = (db, subs, err_rsp op hh c)) /\
+  h_write_cmd b db subs h v = (db, subs).
 Proof.
-  intros Hf Hm Hd. destruct (write_refused b a Hm Hd) as (c & Hc).
-  unfold h_write, h_write_cmd. rewrite Hf, Hc.
-  destruct (MAX_VALUE_SIZE <? len v); split; eauto.
+  intros Hf Hm Hd. pose proof (write_refused b a Hm Hd) as Hc.
+  unfold h_write, h_write_cmd, exc_rsp. rewrite Hf.
+  destruct (MAX_VALUE_SIZE <? len v); [split; eauto|].
+  destruct (write_check b a); [split; eauto|contradiction|split; eauto].
 Qed.
 
 (* a Write Request that is answered by an Error Response changed nothing *)
-Lemma write_error_unchanged b db op h v :
-  snd (h_write b db op h v) <> [OP_WRITE_RSP] -> fst (h_write b db op h v) = db.
+Lemma write_error_unchanged b db subs op h v :
+  snd (h_write b db subs op h v) <> [OP_WRITE_RSP] -> fst (h_write b db subs op h v) = (db, subs).
 Proof.
   unfold h_write. destruct (find_attr h db) as [a|]; [|reflexivity].
   destruct (MAX_VALUE_SIZE <? len v); [reflexivity|].
-  destruct (write_check b a); [reflexivity|]. cbn. intros H. contradiction H. reflexivity.
+  destruct (write_check b a); [reflexivity| |reflexivity]. cbn. intros H. contradiction H. reflexivity.
 Qed.
 
 Lemma write_gated_refuted :
   exists b db h v a,
-    find_attr h db = Some a /\ may_write b a = false /\ h_write_cmd b db h v <> db.
+    find_attr h db = Some a /\ may_write b a = false /\ fst (h_write_cmd b db [] h v) <> db.
 Proof.
-  exists (mkBearer 23 false false false), [mkAttr 1 [17; 17] 1 [1] 1 0 0], 1, [2].
+  exists (mkBearer 23 false false false), [mkAttr 1 [17; 17] 1 [1] 1 0 0 0], 1, [2].
   eexists. split; [reflexivity|]. split; [reflexivity|]. vm_compute. discriminate.
 Qed.
 
@@ -1170,21 +1207,22 @@ Proof.
   all: discriminate.
 Qed.
 
-(* only Write Request and Write Command can change the database *)
+(* only Write Request and Write Command can change the database or the subscription state *)
 Lemma rx_db_unchanged st opc ps st' out :
-  opc <> 18 -> opc <> 82 -> rx st opc ps = Some (st', out) -> s_db st' = s_db st.
+  opc <> 18 -> opc <> 82 -> rx st opc ps = Some (st', out) ->
+  s_db st' = s_db st /\ s_subs st' = s_subs st.
 Proof.
   intros H18 H82 H. unfold rx in H. destruct (parse_pdu opc ps) as [|r] eqn:E.
-  - inversion H; reflexivity.
-  - destruct (assoc opc m_handlers); [|inversion H; reflexivity].
+  - inversion H; auto.
+  - destruct (assoc opc m_handlers); [|inversion H; auto].
     unfold parse_pdu in E. destruct (assoc opc m_shapes) as [sh|].
     + destruct (parse_fields sh ps) as [fv|]; [|discriminate]. inversion E as [E1].
-      unfold handle in H. destruct r; try (inversion H; reflexivity).
-      * unfold h_mtu in H. inversion H. destruct (DEFAULT_MTU <=? m); reflexivity.
+      unfold handle in H. destruct r; try (inversion H; auto; fail).
+      * unfold h_mtu in H. inversion H. destruct (DEFAULT_MTU <=? m); auto.
       * apply to_req_write in E1. contradiction.
       * apply to_req_write_cmd in E1. contradiction.
       * inversion H as [H1]. unfold h_confirm in H1.
-        destruct (s_pending st); [destruct (s_waiting st)|]; inversion H1; reflexivity.
+        destruct (s_pending st); [destruct (s_waiting st)|]; inversion H1; auto.
     + inversion E; subst. discriminate.
 Qed.
 
@@ -1202,7 +1240,8 @@ Definition write_refusal (b : bearer) (perm : Z) : option Z :=
   else if Z.testbit perm 7 then Some 8
   else None.
 
-Lemma read_value_refusal b a c : read_refusal b (a_perm a) = Some c -> read_value b a = RErr c.
+Lemma read_value_refusal b subs a c :
+  read_refusal b (a_perm a) = Some c -> read_value b subs a = RErr c.
 Proof.
   unfold read_refusal, read_value, PB_READ_ENC, PB_READ_AUTHN, PB_READ_AUTHZ.
   destruct (Z.testbit (a_perm a) 2 && negb (b_enc b)); [intros H; inversion H; reflexivity|].
@@ -1219,7 +1258,7 @@ Proof.
 Qed.
 
 Lemma find_view_views st h :
-  find_view h (views st) = option_map (view_of (s_b st)) (find_attr h (s_db st)).
+  find_view h (views st) = option_map (view_of (s_b st) (s_subs st)) (find_attr h (s_db st)).
 Proof.
   unfold views. induction (s_db st) as [|a db IH]; [reflexivity|].
   cbn [map find_view find_attr view_of v_handle].
@@ -1231,7 +1270,7 @@ Lemma read_refusal_rx st x y a c :
   rx st 10 [x; y] = Some (st, [err_rsp 10 (x + 256 * y) c]) /\
   forall o1 o2, rx st 12 [x; y; o1; o2] = Some (st, [err_rsp 12 (x + 256 * y) c]).
 Proof.
-  intros Hf Hr. apply read_value_refusal in Hr.
+  intros Hf Hr. apply (read_value_refusal (s_b st) (s_subs st)) in Hr.
   split; [|intros o1 o2]; unfold rx, parse_pdu; cbn [assoc m_shapes m_handlers Z.eqb Pos.eqb parse_fields option_map to_req handle];
     unfold h_read, h_blob; rewrite find_view_views, Hf; cbn [option_map view_of v_read]; rewrite Hr; reflexivity.
 Qed.
@@ -1239,8 +1278,8 @@ Qed.
 Lemma write_refusal_rx st x y v a c :
   find_attr (x + 256 * y) (s_db st) = Some a -> write_refusal (s_b st) (a_perm a) = Some c ->
   len v <= 512 ->
-  rx st 18 (x :: y :: v) = Some (set_db st (s_db st), [err_rsp 18 (x + 256 * y) c]) /\
-  rx st 82 (x :: y :: v) = Some (set_db st (s_db st), []).
+  rx st 18 (x :: y :: v) = Some (set_dbs st (s_db st, s_subs st), [err_rsp 18 (x + 256 * y) c]) /\
+  rx st 82 (x :: y :: v) = Some (set_dbs st (s_db st, s_subs st), []).
 Proof.
   intros Hf Hr Hl. apply write_check_refusal in Hr.
   assert (Hlt : (MAX_VALUE_SIZE <? len v) = false) by (apply Z.ltb_ge; exact Hl).
@@ -1251,18 +1290,19 @@ Qed.
 Lemma write_gated_rx st x y v a :
   find_attr (x + 256 * y) (s_db st) = Some a ->
   may_write (s_b st) a = false -> d11a_write_witness (s_b st) a = false ->
-  (exists st' c, rx st 18 (x :: y :: v) = Some (st', [err_rsp 18 (x + 256 * y) c]) /\ s_db st' = s_db st) /\
-  (exists st', rx st 82 (x :: y :: v) = Some (st', []) /\ s_db st' = s_db st).
+  (exists st' hh c, rx st 18 (x :: y :: v) = Some (st', [err_rsp 18 hh c]) /\
+                    s_db st' = s_db st /\ s_subs st' = s_subs st) /\
+  (exists st', rx st 82 (x :: y :: v) = Some (st', []) /\ s_db st' = s_db st /\ s_subs st' = s_subs st).
 Proof.
   intros Hf Hm Hd.
-  destruct (write_gated_db (s_b st) (s_db st) 18 (x + 256 * y) v a Hf Hm Hd) as ((c & Hw) & Hc).
+  destruct (write_gated_db (s_b st) (s_db st) (s_subs st) 18 (x + 256 * y) v a Hf Hm Hd) as ((hh & c & Hw) & Hc).
   split.
-  - exists (set_db st (s_db st)), c.
+  - exists (set_dbs st (s_db st, s_subs st)), hh, c.
     unfold rx, parse_pdu. cbn [assoc m_shapes m_handlers Z.eqb Pos.eqb parse_fields option_map to_req handle].
-    rewrite Hw. split; reflexivity.
-  - exists (set_db st (s_db st)).
+    rewrite Hw. repeat split.
+  - exists (set_dbs st (s_db st, s_subs st)).
     unfold rx, parse_pdu. cbn [assoc m_shapes m_handlers Z.eqb Pos.eqb parse_fields option_map to_req handle].
-    rewrite Hc. split; reflexivity.
+    rewrite Hc. repeat split.
 Qed.
 
 Lemma rx_read_gated st1 st2 opc ps :
@@ -1303,7 +1343,7 @@ Proof.
   - apply parse_14 in E. destruct E as (hs & ->). cbn [handle]. eauto.
   - apply parse_16 in E. destruct E as (s & e & t & ->). cbn [handle]. eauto.
   - apply parse_18 in E. destruct E as (h & v & ->). cbn [handle].
-    destruct (h_write (s_b st) (s_db st) 18 h v). eauto.
+    destruct (h_write (s_b st) (s_db st) (s_subs st) 18 h v). eauto.
   - apply parse_30 in E. subst r. cbn [handle]. destruct (h_confirm st). eauto.
   - apply parse_32 in E. destruct E as (hs & ->). cbn [handle]. eauto.
   - apply parse_82 in E. destruct E as (h & v & ->). cbn [handle]. eauto.
@@ -1313,7 +1353,7 @@ Lemma run_total ops : forall st, exists st' outs, run st ops = Some (st', outs).
 Proof.
   induction ops as [|o ops IH]; intros st; cbn [run]; [eauto|].
   assert (Hs : exists st1 out, step st o = Some (st1, out)).
-  { destruct o; cbn [step]; [apply rx_total| | | |]; eauto.
+  { destruct o; cbn [step]; [apply rx_total| | |]; eauto.
     - destruct (h_confirm st); eauto.
     - destruct (notify st h v force); eauto.
     - destruct (indicate st h v force); eauto. }
